@@ -113,6 +113,7 @@ enum
     CL_PREEMPT,
     CL_STEPLIMIT,
     CL_CONFIG_WHILE_RUNNING,
+    CL_NO_STOP,
 };
 
 const VhSpec kSpec = {
@@ -126,7 +127,7 @@ const VhSpec kSpec = {
       "monitor_first_used_in_later_acquisition", "client_holds_region", "abort", "abort_while_worker_blocked", "abort_while_client_mapped",
       "abort_from_other_thread", "trigger_mode", "averaging", "averaging_2_windows", "fault_camera_frame", "fault_storage_append", "fault_start",
       "fault_fired", "fault_while_source_blocked", "shutdown_reinit", "start_while_running", "device_switch", "stream_toggled", "camera_no_frame_returns",
-      "hardware_id_gaps", "pct_schedule", "preemptions", "step_limit_inconclusive", "configure_while_running", nullptr },
+      "hardware_id_gaps", "pct_schedule", "preemptions", "step_limit_inconclusive", "configure_while_running", "poll_then_continue_without_stop", nullptr },
     { "C04 non-trivial: a finite acquisition completed with >=3 wraps of the sink ring AND (sink caught up at a wrap, or source blocked on a full ring, or a monitor lagging >= 1 frame, or write delay > 0)",
       "C05 non-trivial: image bytes % 8 != 0 AND a packet starting right after a wrap or after a partial client consume",
       "C06 non-trivial: >=2 acquisitions AND the monitor registered AND (partial consume, or hold while the ring filled, or first registration in a later acquisition)",
@@ -223,6 +224,7 @@ struct Ctx
     int abort_other_delay = 0;
     bool abort_other_requested = false;
     bool aborted_current = false;
+    bool mon_disabled = false;
     bool disrupted = false; // a refused start-while-running stopped the cameras of the running acquisition
     int started_acqs = 0;
     bool prev_enabled[2] = { false, false };
@@ -560,6 +562,7 @@ apply_scripts(Ctx& x, const StreamCfg cfg[2])
         vmock::StoreScript& ss = vmock::hub.store_script[c.store];
         ss = vmock::StoreScript();
         ss.delay_ms = c.store_delay_ms;
+        ss.stop_yields = (c.w + c.h) % 2 == 0;
         if (c.fault_site == 1)
             cs.fail_at = c.fault_index;
         if (c.fault_site == 2)
@@ -763,6 +766,7 @@ finish_acquisition(Ctx& x, bool by_abort, const char* how)
 {
     // called after acquire_stop / acquire_abort returned
     x.running = false;
+    x.mon_disabled = false;
     if (x.disrupted) {
         by_abort = true;
         x.disrupted = false;
@@ -855,7 +859,7 @@ void
 do_map(Ctx& x, int s)
 {
     Mon& m = x.mon[s];
-    if (m.mapped || x.c.ended || !x.rt)
+    if (m.mapped || x.c.ended || !x.rt || x.mon_disabled)
         return;
     bool enabled_now = false, averaged = false;
     size_t acq = 0;
@@ -1104,6 +1108,52 @@ do_stop_when_done(Ctx& x)
     finish_acquisition(x, by_other, by_other ? "acquire_abort(other thread)" : "acquire_stop");
 }
 
+// The client polls until the runtime no longer reports Running and then goes on WITHOUT calling
+// acquire_stop (re-configures, possibly with other devices, and starts again): the device
+// life-cycle automaton judges what the runtime does to the devices in that window.
+void
+do_poll_done_without_stop(Ctx& x)
+{
+    if (!x.running || x.c.ended)
+        return;
+    for (size_t ai : x.cur_acqs) {
+        const AcqRec& a = x.acqs[ai];
+        if (a.cfg.nframes < 0 || a.cfg.trigger || a.cfg.fault_site || a.start_failed || x.mon[a.stream].registered) {
+            do_stop_when_done(x); // needs triggers / never ends / failed / monitored: use the ordinary ending
+            return;
+        }
+    }
+    if (x.aborted_current || !x.other_done || x.disrupted) {
+        do_stop_when_done(x);
+        return;
+    }
+    x.c.trace("client: POLL until not Running, then carry on without acquire_stop");
+    int polls = 0;
+    while (!x.c.ended && acquire_get_state(x.rt) == DeviceState_Running) {
+        sleep_ms(2.0f);
+        if (++polls > 4000) {
+            do_stop_when_done(x);
+            return;
+        }
+    }
+    if (x.c.ended)
+        return;
+    x.c.cls(CL_NO_STOP);
+    x.running = false;
+    x.mon_disabled = true; // nothing was flushed: monitoring is only judged again after a real stop
+    for (size_t ai : x.cur_acqs) {
+        AcqRec& a = x.acqs[ai];
+        a.stopped = true;
+        if (a.cfg.avg >= 2)
+            check_averaging(x, a, true);
+        else
+            check_storage_vs_camera(x, a, x.taint, a.cfg.nframes >= 0, false);
+        if (x.c.ended)
+            return;
+    }
+    x.configured = true;
+}
+
 void
 do_stop_now(Ctx& x)
 {
@@ -1282,7 +1332,12 @@ client_main(void*)
                             do_stop_when_done(x);
                             break;
                         case 1: do_stop_now(x); break;
-                        default: do_stop_when_done(x); break;
+                        default:
+                            if ((op.t.d >> 5) % 4 == 0)
+                                do_poll_done_without_stop(x);
+                            else
+                                do_stop_when_done(x);
+                            break;
                     }
                 }
                 break;
